@@ -104,11 +104,21 @@ def one_config(job):
         # one throw of more instants than any internal block size (2**16), not a multiple of it: a sample of the instants (both ends,
         # around every multiple of 4096, random ones) is judged like any other instant; a day-long window so that the source sets and rises
         NL = job["long_throw"]
-        cfgL = make_config(dict(spec, obst=86400.0))
+        # (input selection only: the window length is chosen so that the source is occulted within the limit near the END of the window)
+        spec = dict(spec, altitude=525.0, limb=float(np.radians(20.0)))     # a wide band of kept instants (about 80 minutes per pass)
+        meta0 = dict(spec, N=NL)
+        cfg0 = make_config(dict(spec, obst=86400.0))
+        ip0, t0 = cfg0.detector.initial_position, cfg0.simulation.target
+        grid = np.linspace(0.0, 86400.0, 1441)
+        a0, _ = sky.source_altaz(t0.source_RA, t0.source_DEC, ip0.latitude, ip0.longitude, ip0.altitude, sky.times_of(t0.source_date, t0.source_date_format, grid))
+        dip = np.arccos(6371.0 / (6371.0 + spec["altitude"]))
+        band = np.flatnonzero((np.asarray(a0) < -dip) & (np.asarray(a0) > -dip - min(spec["limb"], np.radians(30.0))) & (grid > 3600.0))
+        obstL = float(grid[band[len(band) // 2]] / 0.968) if len(band) else 86400.0
+        cfgL = make_config(dict(spec, obst=obstL))
         gL = RegionGeomToO(cfgL)
         tL = cfgL.simulation.target
         gL.throw(NL)
-        pickL = set(range(8)) | set(range(NL - 40, NL)) | set(int(i) for i in rng.integers(0, NL, 120))
+        pickL = set(range(8)) | set(range(NL - 40, NL)) | set(int(i) for i in rng.integers(0, NL, 120)) | set(range(NL - NL % 65536, NL, 97))
         for kk in range(4096, NL, 4096):
             pickL |= {kk - 1, kk}
         pickL = np.array(sorted(pickL))
